@@ -20,6 +20,15 @@ parser/runtime) and host functions whose results range over every value class; t
 arrayIndexOf / arrayLastIndexOf its contract (match_pred: the returned value read with the language's truth rules) - stream
 `callbacks` (every function x every element class, exhaustive, + random arrays) and ~30% of the searches of the `lib` stream.
 Stream `sort`: arraySort (outside the Lean model) against the sequence contract of a sort, with and without compare call-backs.
+
+Function values (added after seeding rounds 5 and 6, stream `function-values`): calls issued THROUGH a function value - a library
+function bound with systemPartial and called repeatedly (no / some / wrong / surplus extra arguments, again after a failed call), bound
+again, passed as a match function; library functions themselves as match functions; script functions with a last-argument array that
+record, change or return the array of arguments of every call (RECORDERS) as match functions, bound or called by name - against the
+reference (RefFn / FvWorld: the direct call with bound + extra arguments, a fresh argument array per call) and, where its library can
+express the history, against the Lean jump machine over HostLib.hostLib.  The `sort` stream has recording compare functions too.
+Text without a UTF-8 form (streams `lib-surrogates`, `text-surrogates`): strings, keys and character codes with lone surrogates,
+implementation-side against the Python reference only (a Lean Char cannot be a surrogate).
 """
 
 import copy
@@ -63,7 +72,8 @@ ASSUMPTIONS = [
     '(both tables are re-extracted from the running CPython on every run into Gen/LibFns.lean)',
     'str.isspace code points are those enumerated from the running CPython (Gen.pySpace)',
     'numbers are finite (every finite int/float is an exact rational); int vs float spelling is the subject of C12, not C15',
-    'strings contain no lone surrogates (not representable as Lean Char); stringFromCharCode of a surrogate is unmodelled',
+    'strings contain no lone surrogates (not representable as Lean Char); stringFromCharCode of a surrogate is unmodelled - in the Lean '
+    'model and the streams compared with it; the implementation-only streams lib-surrogates / text-surrogates run such text against the Python reference',
     'containers are acyclic (finding F18: a container reachable from itself breaks value_json/value_compare); generators never build cycles',
 ]
 TRUSTED = [
@@ -222,6 +232,8 @@ def scalar_proto(x):
         return {'dt': (x - EPOCH) // datetime.timedelta(milliseconds=1)}
     if isinstance(x, REGEX_TYPE):
         return {'re': next((i for i, r in enumerate(REGEXES) if r is x), 99)}
+    if isinstance(x, RefFn):
+        return {'f': 99}             # function values are opaque (library functions, bound functions, script functions of a history)
     if callable(x):
         return {'f': fn_index(x)}
     return {'unknown': type(x).__name__}
@@ -383,6 +395,8 @@ def ref_truthy(x):
 def match_pred(v):
     """arrayIndexOf / arrayLastIndexOf: 'the value to find in the array, or a match function, f(value) -> bool' - the returned
     value is a value of the language, read as a boolean the way every other construct of the language reads it."""
+    if isinstance(v, RefFn):
+        return lambda el: ref_truthy(v.apply([el], True))
     if rtype(v) == 'function':
         i = fn_index(v)
         if i >= NFN:
@@ -700,15 +714,55 @@ def r_regex_escape(args):
     return re.escape(s)
 
 
+def has_surrogate(s):
+    return any(0xD800 <= ord(ch) <= 0xDFFF for ch in s)
+
+
+def percent_decode(text):
+    """%XX -> byte, everything else must be ASCII; the bytes read as UTF-8 (a surrogate's three-byte form is accepted: any
+    reversible rendering of a string that has no UTF-8 form is fine) -> the string, or None when `text` is no percent-encoding"""
+    out = bytearray()
+    i = 0
+    while i < len(text):
+        ch = text[i]
+        if ch == '%':
+            try:
+                out.append(int(text[i + 1:i + 3], 16) if len(text) >= i + 3 else -1)
+            except ValueError:
+                return None
+            i += 3
+        elif ord(ch) > 127:
+            return None
+        else:
+            out.append(ord(ch))
+            i += 1
+    try:
+        return out.decode('utf-8', 'surrogatepass')
+    except UnicodeDecodeError:
+        return None
+
+
+def url_encoding_ok(s, enc):
+    """'URL encoding is reversible by percent-decoding': the result decodes to the argument; text with a lone surrogate has no
+    UTF-8 form - there the call may instead fail (null)"""
+    if enc is None:
+        return has_surrogate(s)
+    return isinstance(enc, str) and percent_decode(enc) == s
+
+
 def r_url_encode(args):
     s, = _args(args, 1, 1)
     need(isinstance(s, str))
+    if has_surrogate(s):
+        raise Skip()          # null or any reversible encoding: judged by url_encoding_ok in check_history
     return urllib.parse.quote(s, safe="':/&+")
 
 
 def r_url_encode_component(args):
     s, = _args(args, 1, 1)
     need(isinstance(s, str))
+    if has_surrogate(s):
+        raise Skip()
     return urllib.parse.quote(s, safe="'")
 
 
@@ -790,7 +844,7 @@ def lit_text(p, consts):
         return txt
     if 's' in p:
         s = p['s']
-        if '\n' in s or '\r' in s:
+        if '\n' in s or '\r' in s or has_surrogate(s):      # (a script file has no lone surrogates: such text is host supplied)
             name = f'c{len(consts)}'
             consts[name] = s
             return name
@@ -905,6 +959,9 @@ def check_history(spec, model_steps=None, run=None):
                 witnesses.append(('reference-result', k, 'a scalar', ist['res']))
                 break
             res = build_pool({'heap': [], 'env': [ist['res']]})[1][0]
+            if fn in ('urlEncode', 'urlEncodeComponent') and not url_encoding_ok(args[0], res):
+                witnesses.append((fn + '-reversible', k, {'call': c, 'argument': args[0], 'result': 'null, or text that percent-decodes to the argument'}, ist['res']))
+                break
         if kind == 'fail':
             info['fails'] += 1
         renv.append(res)
@@ -963,6 +1020,26 @@ def check_history(spec, model_steps=None, run=None):
 ALPHABET = ['a', 'b', 'c', 'A', 'B', ' ', ',', '.', '-', '/', '%', "'", '"', '\\', '*', '(', '\t', '\n', '\u20ac', '\u65e5', '\U0001f600', '\u00a0']
 WIDE = ALPHABET + ['\u00e9', '\u00c9', '\u00df', '+', '?', '[', ']', '{', '}', '|', '^', '$', '#', '&', '~', ':', '=', '\x00', '\x7f', '\u0130', '\u2003']
 KEYS = ['a', 'b', 'k', '', 'key', '\u20ac']
+CHAR_CODES = [97, 98, 32, 10, 0x20ac, 0x1f600, 65, 0, 0x10ffff]
+# text that has no UTF-8 form: lone surrogates (a script builds them with stringFromCharCode, a host passes them in) - outside
+# the Lean model (Char), used by the implementation-only streams `lib-surrogates` and `text-surrogates`
+SURROGATES = ['\ud83d', '\ude00', '\ud800', '\udfff']
+SURROGATE_CODES = [0xD83D, 0xDE00, 0xD800, 0xDFFF, 0xDBFF, 0xDC00]
+
+
+class surrogate_mode:
+    """within the block the generators draw characters, keys and character codes from the surrogate-extended tables"""
+
+    def __enter__(self):
+        global ALPHABET, KEYS, CHAR_CODES                        # pylint: disable=global-statement
+        self.saved = (ALPHABET, KEYS, CHAR_CODES)
+        ALPHABET = ALPHABET + SURROGATES + SURROGATES
+        KEYS = KEYS + ['\ud83d', 'a\ude00']
+        CHAR_CODES = CHAR_CODES + SURROGATE_CODES
+
+    def __exit__(self, *unused):
+        global ALPHABET, KEYS, CHAR_CODES                        # pylint: disable=global-statement
+        ALPHABET, KEYS, CHAR_CODES = self.saved
 DTS = [0, 1577836800000]
 
 
@@ -1083,7 +1160,7 @@ class Gen:
                         if j < n - 1 or rng.random() < 0.8:
                             args.append(self.any_value())
                     elif kind == 'C*':
-                        args.append({'n': [rng.choice([97, 98, 32, 10, 0x20ac, 0x1f600, 65, 0, 0x10ffff]), 1]} if rng.random() > self.p_bad
+                        args.append({'n': [rng.choice(CHAR_CODES), 1]} if rng.random() > self.p_bad
                                     else rng.choice([{'n': [-1, 1]}, {'n': [3, 2]}, {'n': [0x110000, 1]}, None, {'s': 'a'}, True]))
                     else:
                         args.append(self.any_value(avoid_target=first))
@@ -1210,7 +1287,8 @@ def args_cases():
 # Streams
 # ---------------------------------------------------------------------------------------------------------------------
 
-def load_corpus():
+def load_corpus(key='calls'):
+    """the hand-picked histories that have member `key`: 'calls' = histories of the lib stream, 'stmts' = FV histories"""
     path = os.path.join(fw.VERIF, 'harness', 'corpus', 'C15.jsonl')
     out = []
     if os.path.exists(path):
@@ -1219,6 +1297,8 @@ def load_corpus():
                 ln = ln.strip()
                 if ln and not ln.startswith('#'):
                     spec = json.loads(ln)
+                    if key not in spec:
+                        continue
                     for v in spec['env']:      # function values may be written by name: {"f": "mGetA"} / {"f": "host:mGetA"}
                         if isinstance(v, dict) and isinstance(v.get('f'), str):
                             v['f'] = fn_id(v['f'])
@@ -1441,6 +1521,10 @@ def text_failures(s, got, rng):
         except re.error as exc:
             bad.append(('regexEscape-matches-exactly', 'a valid pattern', f'{e!r}: {exc}'))
     for name, enc in (('urlEncode', u), ('urlEncodeComponent', c)):
+        if has_surrogate(s):
+            if not url_encoding_ok(s, enc):
+                bad.append((name + '-reversible', {'argument': s, 'result': 'null, or text that percent-decodes to the argument'}, enc))
+            continue
         if not isinstance(enc, str) or urllib.parse.unquote(enc) != s:
             bad.append((name + '-reversible', s, enc))
         elif not all(ch.isascii() and (ch.isalnum() or ch in "-_.~%':/&+") for ch in enc):
@@ -1616,8 +1700,15 @@ COMPARATORS = [
     ('cSysRev', ['return systemCompare(b, a)'], lambda a, b: ref_compare(b, a), 'any'),
     ('cSysHalf', ['return systemCompare(a, b) / 2'], lambda a, b: ref_compare(a, b) / 2, 'any'),
     ('cEqual', ['return 0'], lambda a, b: 0, 'any'),
+    # last-argument-array compare functions (COMPARATOR_PARAMS) that RECORD the array of arguments of every call in the global
+    # `sortKept` or change it: every call gets its own fresh two-element array (sort_failures checks the recorded arrays)
+    ('cRestSys', ['arrayPush(sortKept, ab)', 'return systemCompare(arrayGet(ab, 0), arrayGet(ab, 1))'], ref_compare, 'any'),
+    ('cRestNum', ['arrayPush(sortKept, ab)', 'return arrayGet(ab, 0) - arrayGet(ab, 1)'], lambda a, b: a - b, 'num'),
+    ('cRestMut', ['arrayPush(sortKept, arrayCopy(ab))', 'r = systemCompare(arrayGet(ab, 1), arrayGet(ab, 0))', 'arraySet(ab, 0, null)', 'arrayPop(ab)',
+                  "arrayPush(ab, 'm', 'm')", 'return r'], lambda a, b: ref_compare(b, a), 'any'),
 ]
-COMPARATOR_PRELUDE = '\n'.join(f'function {name}(a, b):\n' + '\n'.join('    ' + ln for ln in body) + '\nendfunction'
+COMPARATOR_PARAMS = {'cRestSys': 'ab...', 'cRestNum': 'ab...', 'cRestMut': 'ab...'}
+COMPARATOR_PRELUDE = '\n'.join(f'function {name}({COMPARATOR_PARAMS.get(name, "a, b")}):\n' + '\n'.join('    ' + ln for ln in body) + '\nendfunction'
                                for name, body, _, _ in COMPARATORS)
 COMPARATOR_REF = {c[0]: c[2] for c in COMPARATORS}
 _CMP_CACHE = {}
@@ -1641,7 +1732,8 @@ def sort_failures(case):
     impl = fw.impl()
     _, env, val = build_pool({'heap': case['heap'], 'env': [case['arr']]})
     arr = env[0]
-    glob = {'a': arr, 'alias': arr}
+    kept = []
+    glob = {'a': arr, 'alias': arr, 'sortKept': kept}
     cmp_ = case.get('cmp')
     ref = None
     call = 'arraySort(a'
@@ -1678,6 +1770,12 @@ def sort_failures(case):
               sorted(json.dumps(scalar_proto(e), sort_keys=True) for e in before if not isinstance(e, (list, dict))) \
            or glob.get('n') != len(before):
             bad.append(('sort-is-a-permutation', canon_state([before]), canon_state([arr])))
+    # the arrays of arguments a recording compare function kept: one fresh array [x, y] of two elements of the array per call
+    if glob.get('sortKept') is not kept or len({id(k) for k in kept}) != len(kept) or any(k is arr for k in kept) or \
+       any(not isinstance(k, list) or len(k) != 2 or any(not any(e is x or (not isinstance(e, (list, dict)) and canon_state([e]) == canon_state([x]))
+                                                                 for x in before) for e in k) for k in kept):
+        bad.append(('callback-argument-arrays', 'one fresh array [x, y] of two elements of the sorted array per call of the compare function',
+                    canon_state([kept, arr])))
     if fails:
         if r is not None:
             bad.append(('failure-value', None, canon_state([r])))
@@ -1792,11 +1890,724 @@ def stream_sort(ctx):
             ctx.witness(oracle, {'sort': case}, want, got)
 
 
+# ---------------------------------------------------------------------------------------------------------------------
+# Function values (added after seeding rounds 5 and 6): calls issued THROUGH a function value, and call-backs that keep or
+# change the array of arguments they are handed.
+#
+# The histories above call every library function by name with a fresh argument list per call, and their call-backs are pure
+# functions of one element.  A script can do more: bind a library function with systemPartial and call the bound function any
+# number of times (with no, some, wrong or surplus extra arguments, again after a failed call), pass a library function or such
+# a bound function as the match function of a search, and define functions with a last-argument array (`function f(vals...)`)
+# that RECORD the array of arguments of every call in a global array (`kept`), change it, or return it.  The contract is the
+# one of the property: the call behaves as the direct call with the bound arguments followed by the extra ones (documentation
+# of systemPartial), every call of a script function gets its own, fresh last-argument array, a search is not a mutator - so
+# the arrays a call-back recorded are ordinary independent arrays ([element] per visited element, in visiting order) that
+# change only when the script passes them to a mutator, and then only that one.
+#
+# FV history (protocol form): {'heap', 'env', 'kept': index of the variable that is the global `kept`, 'stmts': [stmt...]},
+#   stmt = {'callee': {'lib': name} | {'rec': name} | {'var': k}, 'args': [literal | {'var': k} | {'lib': name} | {'rec': name}]}
+#   rendered as  v<n> = callee(args...)  ({'lib': name} / {'rec': name} as an argument is the function VALUE of that name).
+# Three parties: the implementation (script + __snap() after every statement), the reference (`FvWorld`: the Ref functions
+# above + RefFn for function values + the recorders' reference semantics written from their text and the language's rules for
+# binding arguments) -> ctx.witness; the Lean jump machine over HostLib.hostLib (drv_hostlib "exec": script functions,
+# systemPartial and the match-function form of arrayIndexOf are HostImpl trees there) -> ctx.compare.
+# ---------------------------------------------------------------------------------------------------------------------
+
+class RefFn:
+    """A function value of the reference world: a library function by name, a systemPartial application or a recorder."""
+
+    def __init__(self, kind, world, name=None, target=None, bound=()):
+        self.kind = kind
+        self.world = world
+        self.name = name
+        self.target = target
+        self.bound = list(bound)
+
+    def apply(self, args, nested):
+        """The value of a call with the argument list `args`; nested = the call is issued by a library function (call-back).
+        A FAILING library call issued by a library function is outside what the property states (the failure value of the inner
+        call versus the one of the outer call): Skip - the generators never keep such a history."""
+        if self.kind == 'partial':
+            if not isinstance(self.target, RefFn):
+                raise Skip()
+            return self.target.apply(self.bound + list(args), nested)
+        if self.kind == 'rec':
+            return RECORDER_REF[self.name](self.world, list(args))
+        if self.name == 'systemPartial':
+            if len(args) < 2 or rtype(args[0]) != 'function':
+                if nested:
+                    raise Skip()
+                return None
+            return RefFn('partial', self.world, target=args[0], bound=args[1:])
+        if len(args) > 1 and rtype(args[1]) == 'function' and (self.name == 'arrayLastIndexOf' or (self.name == 'arrayIndexOf' and len(args) != 2)):
+            self.world.beyond_machine = True
+        if self.name in ('stringLower', 'stringUpper') and args and isinstance(args[0], str) and not args[0].isascii():
+            self.world.beyond_machine = True         # case mapping of non-ASCII text is outside the Lean library model
+        kind, res = ref_call(self.name, list(args))
+        if kind == 'skip' or (kind == 'fail' and nested):
+            raise Skip()
+        return res
+
+
+def _arg(args, k):
+    return args[k] if k < len(args) else None      # a missing argument of a script function is null
+
+
+def _rec_keep(w, a):
+    w.kept().append(list(a))
+    return False
+
+
+def _rec_keep_second(w, a):
+    w.kept().append(list(a))
+    return len(w.kept()) >= 2
+
+
+def _rec_keep_tail(w, a):
+    w.kept().append(list(a[1:]))
+    return False
+
+
+def _rec_grow(w, a):
+    vals = list(a)
+    vals.append('m')
+    w.kept().append(vals)
+    return False
+
+
+def _rec_set(w, a):
+    vals = list(a)
+    if vals:
+        vals[0] = 'z'
+    w.kept().append(vals)
+    return False
+
+
+def _rec_shrink(w, a):
+    vals = list(a)
+    w.kept().append(vals.pop() if vals else None)
+    w.kept().append(float(len(vals)))
+    return False
+
+
+def _rec_keep_x(w, a):
+    w.kept().append(_arg(a, 0))
+    return False
+
+
+def _rec_keep_pair(w, a):
+    w.kept().append([_arg(a, 0), _arg(a, 1)])
+    return _arg(a, 1)
+
+
+def _rec_is_str(w, a):
+    w.kept().append(list(a))
+    return bool(a) and isinstance(a[0], str)
+
+
+def _rec_vals(unused_w, a):
+    return list(a)
+
+
+def _rec_tail(unused_w, a):
+    return list(a[1:])
+
+
+# (name, parameter list, body, reference (world, argument list) -> value).  `kept` is a global array of the history.
+RECORDERS = [
+    ('rKeep', 'vals...', ['arrayPush(kept, vals)', 'return false'], _rec_keep),
+    ('rKeepSecond', 'vals...', ['arrayPush(kept, vals)', 'return arrayLength(kept) >= 2'], _rec_keep_second),
+    ('rKeepTail', 'x, rest...', ['arrayPush(kept, rest)', 'return false'], _rec_keep_tail),
+    ('rGrow', 'vals...', ["arrayPush(vals, 'm')", 'arrayPush(kept, vals)', 'return false'], _rec_grow),
+    ('rSet', 'vals...', ["arraySet(vals, 0, 'z')", 'arrayPush(kept, vals)', 'return false'], _rec_set),
+    ('rShrink', 'vals...', ['arrayPush(kept, arrayPop(vals))', 'arrayPush(kept, arrayLength(vals))', 'return false'], _rec_shrink),
+    ('rKeepX', 'x', ['arrayPush(kept, x)', 'return false'], _rec_keep_x),
+    ('rKeepPair', 'x, y', ['arrayPush(kept, arrayNew(x, y))', 'return y'], _rec_keep_pair),
+    ('rIsStr', 'vals...', ['arrayPush(kept, vals)', "return systemType(arrayGet(vals, 0)) == 'string'"], _rec_is_str),
+    ('rVals', 'vals...', ['return vals'], _rec_vals),
+    ('rTail', 'x, rest...', ['return rest'], _rec_tail),
+]
+RECORDER_REF = {r[0]: r[3] for r in RECORDERS}
+RECORDER_NAMES = [r[0] for r in RECORDERS]
+RECORDER_PRELUDE = '\n'.join(f'function {name}({params}):\n' + '\n'.join('    ' + ln for ln in body) + '\nendfunction'
+                             for name, params, body, _ in RECORDERS)
+# library functions that make sense as a match function of one argument (a failing inner call drops the case, see RefFn.apply)
+FV_MATCH_LIBS = ['arrayNew', 'arrayLength', 'arrayPop', 'arrayShift', 'arrayCopy', 'arrayPush', 'objectKeys', 'objectCopy', 'objectNew',
+                 'stringLength', 'stringTrim', 'stringUpper', 'arrayNewSize', 'regexEscape', 'urlEncodeComponent', 'stringFromCharCode']
+# (library function, bound arguments as kinds) - bound functions that make sense as a match function: the element is the LAST argument
+FV_MATCH_PARTIALS = [('arrayIndexOf', 'A'), ('arrayLastIndexOf', 'A'), ('arrayPush', 'A'), ('arrayGet', 'A'), ('arrayNew', 'V'),
+                     ('arraySet', 'AI'), ('objectSet', 'OK'), ('objectGet', 'O'), ('objectHas', 'O'), ('stringIndexOf', 'S'),
+                     ('stringStartsWith', 'S'), ('stringRepeat', 'S'), ('arrayExtend', 'A'), ('arraySlice', 'A'), ('stringSlice', 'S')]
+
+
+class FvWorld:
+    """The reference state of an FV history: the variables (same aliasing as the pool), function values as RefFn."""
+
+    def __init__(self, spec):
+        _, env, self.val = build_pool(spec)
+        self.env = list(env)
+        self.kept_idx = spec['kept']
+        self.beyond_machine = False  # a call the machine's library does not model was issued (directly, bound, as a call-back)
+
+    def kept(self):
+        return self.env[self.kept_idx]
+
+    def value(self, a):
+        if isinstance(a, dict):
+            if 'var' in a:
+                return self.env[a['var']]
+            if 'lib' in a:
+                return RefFn('lib', self, name=a['lib'])
+            if 'rec' in a:
+                return RefFn('rec', self, name=a['rec'])
+        return self.val(a)
+
+    def step(self, stmt):
+        f = self.value(stmt['callee'])
+        if not isinstance(f, RefFn):
+            raise Skip()
+        res = f.apply([self.value(a) for a in stmt['args']], False)
+        self.env.append(res)
+        return res
+
+
+def fv_replay(spec, stmts):
+    """the reference world after the statements (raises Skip where the reference does not say)"""
+    world = FvWorld(spec)
+    for s in stmts:
+        world.step(s)
+    return world
+
+
+def fv_sane(env):
+    """acyclic (F18) and small"""
+    state = {}
+
+    def visit(x):
+        if isinstance(x, str):
+            return len(x) <= 300
+        if not isinstance(x, (list, dict)):
+            return True
+        k = id(x)
+        if state.get(k) == 1:
+            return False
+        if state.get(k) == 2:
+            return True
+        if len(x) > 60:
+            return False
+        state[k] = 1
+        ok = all(visit(y) for y in (x if isinstance(x, list) else x.values()))
+        state[k] = 2
+        return ok
+    return all(visit(v) for v in env)
+
+
+def fv_term(a, consts):
+    if isinstance(a, dict):
+        if 'var' in a:
+            return f'v{a["var"]}'
+        if 'lib' in a:
+            return a['lib']
+        if 'rec' in a:
+            return a['rec']
+    return lit_text(a, consts)
+
+
+def fv_script(spec, consts, snap):
+    """snap: `__snap()` after every statement (oracle run); else the machine form (type of every result logged, last result returned)"""
+    nenv = len(spec['env'])
+    lines = [RECORDER_PRELUDE]
+    for k, s in enumerate(spec['stmts']):
+        lines.append(f'v{nenv + k} = {fv_term(s["callee"], consts)}({", ".join(fv_term(a, consts) for a in s["args"])})')
+        lines.append('__snap()' if snap else f'systemLog(systemType(v{nenv + k}))')
+    if not snap:
+        lines.append(f'return v{nenv + len(spec["stmts"]) - 1}')
+    return '\n'.join(lines)
+
+
+def fv_globals(spec, consts):
+    _, env, _ = build_pool(spec)
+    glob = {f'v{i}': v for i, v in enumerate(env)}
+    glob['kept'] = env[spec['kept']]
+    glob.update(consts)
+    return glob
+
+
+def fv_budget(spec):
+    return 600 * len(spec['stmts']) + 1000
+
+
+def fv_run_impl(spec):
+    """-> {'steps': [canonical state of all variables after each statement], 'error', 'script'}"""
+    impl = fw.impl()
+    consts = {}
+    text = fv_script(spec, consts, True)
+    glob = fv_globals(spec, consts)
+    nenv = len(spec['env'])
+    steps = []
+
+    def snap(unused_args, unused_options):
+        steps.append(canon_state([glob.get(f'v{i}') for i in range(nenv + len(steps) + 1)]))
+        return None
+    glob['__snap'] = snap
+    error = None
+    try:
+        impl['runtime'].execute_script(impl['parser'].parse_script(text), {'globals': glob, 'maxStatements': fv_budget(spec)})
+    except Exception as exc:  # pylint: disable=broad-except
+        error = f'{type(exc).__name__}: {exc}'
+    return {'steps': steps, 'error': error, 'script': text}
+
+
+def fv_oracle_name(world, stmt):
+    if 'var' in stmt['callee'] or 'rec' in stmt['callee']:
+        return 'call-through-function-value'
+    for a in stmt['args']:
+        if isinstance(a, dict) and ('lib' in a or 'rec' in a or ('var' in a and isinstance(world.env[a['var']], RefFn))):
+            return 'callback-history'
+    return 'reference-state'
+
+
+def fv_check(spec):
+    """One FV history on implementation and reference -> ([(oracle, step, expected, actual)], script)"""
+    run = fv_run_impl(spec)
+    if run['error'] is not None or len(run['steps']) != len(spec['stmts']):
+        return [('no-exception-escapes', len(run['steps']), 'every call evaluates to a value', run['error'] or 'script stopped early')], run['script']
+    world = FvWorld(spec)
+    for k, s in enumerate(spec['stmts']):
+        name = fv_oracle_name(world, s)
+        try:
+            world.step(s)
+        except Skip:
+            break
+        want = canon_state(world.env)
+        if run['steps'][k] != want:
+            return [(name, k, {'stmt': s, 'state': want}, run['steps'][k])], run['script']
+    return [], run['script']
+
+
+class FvGen:
+    """Online generator of FV histories (the reference is replayed from the start for every proposal: a rejected proposal - the
+    reference does not say, a cycle would arise, something grows large - leaves no trace)."""
+
+    def __init__(self, rng, spec):
+        self.rng = rng
+        self.spec = spec
+        self.stmts = []
+        self.pending = []        # (function variable, extra arguments prepared for it)
+        self.peeked = None       # variable holding an element of `kept`
+
+    def fresh(self):
+        world = fv_replay(self.spec, self.stmts)
+        g = Gen(self.rng, self.spec, 0.06)
+        g.env = world.env
+        g.val = world.val
+        return world, g
+
+    def fn_vars(self, world):
+        return [i for i, v in enumerate(world.env) if isinstance(v, RefFn)]
+
+    def arg_of_kind(self, g, kind, first):
+        rng = self.rng
+        if kind == 'A':
+            return g.pick_var(lambda x: isinstance(x, list))
+        if kind == 'O':
+            return g.pick_var(lambda x: isinstance(x, dict))
+        if kind == 'S':
+            return {'s': rand_string(rng)}
+        if kind == 'K':
+            return {'s': rng.choice(KEYS)}
+        if kind == 'I':
+            return g.index_for(len(first) if isinstance(first, (list, str)) else 3)
+        return g.any_value()
+
+    def extras(self, g):
+        rng = self.rng
+        r = rng.random()
+        if r < 0.4:
+            return []
+        if r < 0.6:
+            return [g.index_for(3)]
+        if r < 0.85:
+            return [g.any_value()]
+        return [g.any_value(), g.any_value()]
+
+    def matcher(self, world, g):
+        """a function value for the match-function position -> (argument, statements to issue first)"""
+        rng = self.rng
+        r = rng.random()
+        if r < 0.5:
+            return {'rec': rng.choice(RECORDER_NAMES)}
+        if r < 0.7:
+            return {'lib': rng.choice(FV_MATCH_LIBS)}
+        fvars = self.fn_vars(world)
+        if fvars and r < 0.9:
+            return {'var': rng.choice(fvars)}
+        return {'rec': rng.choice(RECORDER_NAMES)}
+
+    def propose(self, world, g):
+        rng = self.rng
+        nvar = len(world.env)
+        fvars = self.fn_vars(world)
+        r = rng.random()
+        if self.peeked is not None and isinstance(world.env[self.peeked], list) and r < 0.6:
+            v = {'var': self.peeked}
+            self.peeked = None
+            return rng.choice([{'callee': {'lib': 'arrayPush'}, 'args': [v, {'n': [99, 1]}]}, {'callee': {'lib': 'arrayPop'}, 'args': [v]},
+                               {'callee': {'lib': 'arraySet'}, 'args': [v, {'n': [0, 1]}, {'s': 'q'}]},
+                               {'callee': {'lib': 'arrayShift'}, 'args': [v]}])
+        if self.pending and r < 0.65:
+            var, extra = self.pending.pop(rng.randrange(len(self.pending)))
+            return {'callee': {'var': var}, 'args': extra}
+        r = rng.random()
+        if r < 0.16:
+            # bind a library function: a plausible call split into bound and extra arguments
+            call = g.gen_call()
+            if call is None or not call['args']:
+                return None
+            k = rng.randint(1, len(call['args']))
+            self.pending.append((nvar, call['args'][k:]))
+            if rng.random() < 0.5:
+                self.pending.append((nvar, []))
+            return {'callee': {'lib': 'systemPartial'}, 'args': [{'lib': call['fn']}] + call['args'][:k]}
+        if r < 0.22:
+            # bind a function that makes sense as a match function
+            fn, kinds = rng.choice(FV_MATCH_PARTIALS)
+            bound = []
+            first = None
+            for kind in kinds:
+                a = self.arg_of_kind(g, kind, first)
+                if a is None:
+                    return None
+                bound.append(a)
+                if first is None:
+                    first = g.value_of(a)
+            return {'callee': {'lib': 'systemPartial'}, 'args': [{'lib': fn}] + bound}
+        if r < 0.28:
+            # bind a recorder / a bound function once more / nothing bound (fails) / not a function (fails)
+            q = rng.random()
+            if q < 0.6:
+                target = {'rec': rng.choice(RECORDER_NAMES)}
+            elif q < 0.85 and fvars:
+                target = {'var': rng.choice(fvars)}
+            elif q < 0.93:
+                return {'callee': {'lib': 'systemPartial'}, 'args': [{'lib': rng.choice(FUNC_NAMES)}]}
+            else:
+                target = g.any_value()
+            return {'callee': {'lib': 'systemPartial'}, 'args': [target] + [g.any_value() for _ in range(rng.choice([1, 1, 2]))]}
+        if r < 0.50 and fvars:
+            return {'callee': {'var': rng.choice(fvars)}, 'args': self.extras(g)}
+        if r < 0.58:
+            return {'callee': {'rec': rng.choice(RECORDER_NAMES)}, 'args': [g.any_value() for _ in range(rng.choice([0, 1, 1, 2, 3]))]}
+        if r < 0.85:
+            arr = g.pick_var(lambda x: isinstance(x, list) and len(x) >= rng.choice([0, 1, 2, 2, 2]))
+            if arr is None:
+                return None
+            args = [arr, self.matcher(world, g)]
+            if rng.random() < 0.3:
+                args.append(g.index_for(len(g.value_of(arr))))
+            return {'callee': {'lib': rng.choice(CB_FNS)}, 'args': args}
+        if r < 0.92 and world.kept():
+            self.peeked = nvar
+            return {'callee': {'lib': 'arrayGet'}, 'args': [{'var': self.spec['kept']}, {'n': [rng.randrange(len(world.kept())), 1]}]}
+        call = g.gen_call()
+        if call is None:
+            return None
+        return {'callee': {'lib': call['fn']}, 'args': call['args']}
+
+    def history(self, nstmt):
+        tries = 0
+        while len(self.stmts) < nstmt and tries < 6 * nstmt:
+            tries += 1
+            peeked, pending = self.peeked, list(self.pending)
+            world, g = self.fresh()
+            stmt = self.propose(world, g)
+            ok = stmt is not None
+            if ok:
+                try:
+                    consts = {}
+                    for a in [stmt['callee']] + stmt['args']:
+                        fv_term(a, consts)
+                    ok = fv_sane(fv_replay(self.spec, self.stmts + [stmt]).env)
+                except (Skip, ValueError, IndexError):
+                    ok = False
+            if ok:
+                self.stmts.append(stmt)
+            else:
+                self.peeked, self.pending = peeked, pending
+        out = dict(self.spec)
+        out['stmts'] = self.stmts
+        return out
+
+
+def fv_pool(rng):
+    spec = rand_pool(rng)
+    spec['env'] = [v for v in spec['env'] if not (isinstance(v, dict) and 'f' in v)]     # function values arise in the history
+    spec['heap'].append({'arr': []})
+    spec['env'].append({'a': len(spec['heap']) - 1})
+    spec['kept'] = len(spec['env']) - 1
+    return spec
+
+
+def gen_fv_history(rng, maxlen=14):
+    return FvGen(rng, fv_pool(rng)).history(rng.randint(3, maxlen))
+
+
+def fv_systematic():
+    """every recorder x both searches x (by name | bound with a leading tag | bound twice) over arrays of 0..3 elements, then one
+    recorded array is fetched and changed; every match library function and every bound match function over a fitting array"""
+    heap = [{'arr': [{'n': [10, 1]}, {'s': 'b'}, {'n': [30, 1]}]}, {'arr': [{'n': [1, 1]}]}, {'arr': []},
+            {'arr': [{'a': 1}, {'a': 2}, {'a': 0}]}, {'obj': [['a', {'n': [1, 1]}]]}, {'arr': [{'s': 'a'}, {'s': ' b '}, {'s': ''}]},
+            {'arr': [{'n': [0, 1]}, {'n': [2, 1]}, {'n': [1, 1]}]}, {'arr': [{'o': 4}, {'o': 4}]}, {'arr': []}]
+    env = [{'a': 0}, {'a': 0}, {'a': 1}, {'a': 2}, {'a': 3}, {'o': 4}, {'a': 5}, {'a': 6}, {'a': 7}, {'s': 'abcab'}, {'a': 8}]
+    kept = len(env) - 1
+    n = len(env)
+
+    def spec(stmts):
+        return {'heap': copy.deepcopy(heap), 'env': list(env), 'kept': kept, 'stmts': stmts}
+    for name in RECORDER_NAMES:
+        for search in CB_FNS:
+            for arr in (0, 2, 3, 4):
+                yield 'recorder', spec([
+                    {'callee': {'lib': search}, 'args': [{'var': arr}, {'rec': name}]},
+                    {'callee': {'lib': 'arrayGet'}, 'args': [{'var': kept}, {'n': [0, 1]}]},
+                    {'callee': {'lib': 'arrayPush'}, 'args': [{'var': n + 1}, {'n': [99, 1]}]},
+                    {'callee': {'lib': search}, 'args': [{'var': arr}, {'rec': name}]},
+                    {'callee': {'rec': name}, 'args': [{'var': 2}, {'s': 'x'}]},
+                    {'callee': {'rec': name}, 'args': []}])
+                yield 'recorder', spec([
+                    {'callee': {'lib': search}, 'args': [{'var': arr}, {'rec': name}, {'n': [1, 1]}]},
+                    {'callee': {'lib': 'arrayGet'}, 'args': [{'var': kept}, {'n': [1, 1]}]},
+                    {'callee': {'lib': 'arraySet'}, 'args': [{'var': n + 1}, {'n': [0, 1]}, {'var': 2}]},
+                    {'callee': {'lib': search}, 'args': [{'var': arr}, {'rec': name}, {'n': [0, 1]}]}])
+            yield 'bound-recorder', spec([
+                {'callee': {'lib': 'systemPartial'}, 'args': [{'rec': name}, {'s': 'tag'}]},
+                {'callee': {'var': n}, 'args': []},
+                {'callee': {'lib': search}, 'args': [{'var': 0}, {'var': n}]},
+                {'callee': {'var': n}, 'args': []},
+                {'callee': {'lib': 'systemPartial'}, 'args': [{'var': n}, {'var': 2}]},
+                {'callee': {'var': n + 4}, 'args': []},
+                {'callee': {'var': n + 4}, 'args': [{'n': [7, 1]}]},
+                {'callee': {'lib': search}, 'args': [{'var': 7}, {'var': n + 4}]},
+                {'callee': {'var': n + 4}, 'args': []},
+                {'callee': {'var': n}, 'args': []},            # the function bound first is not affected by binding it again
+                {'callee': {'var': n}, 'args': [{'s': 'y'}]}])
+    for fn in FV_MATCH_LIBS:
+        for arr in (0, 4, 6, 7, 8):
+            for search in CB_FNS:
+                yield 'library-match-function', spec([{'callee': {'lib': search}, 'args': [{'var': arr}, {'lib': fn}]},
+                                                      {'callee': {'lib': search}, 'args': [{'var': arr}, {'lib': fn}, {'n': [1, 1]}]}])
+    # every library function bound to its first k valid arguments, called with the rest: no extra / the rest / the rest again /
+    # a surplus argument / the rest once more (a second and third use after a failure)
+    for fn in FUNC_NAMES:
+        kinds = FUNCS[fn][1]
+        base = []
+        for kind in kinds:
+            if kind == 'KV*':
+                base += [{'s': 'k'}, {'n': [1, 1]}]
+            else:
+                base.append({'A': {'var': 0}, 'O': {'var': 5}, 'S': {'var': 9}, 'K': {'s': 'a'}, 'I': {'n': [1, 1]}, 'N': {'n': [2, 1]},
+                             'V': {'s': 'b'}, 'C': {'n': [97, 1]}}[kind[0]])
+        for k in range(1, len(base) + 1):
+            rest = base[k:]
+            yield 'bound-library-function', spec([
+                {'callee': {'lib': 'systemPartial'}, 'args': [{'lib': fn}] + base[:k]},
+                {'callee': {'var': n}, 'args': []},
+                {'callee': {'var': n}, 'args': rest},
+                {'callee': {'var': n}, 'args': []},
+                {'callee': {'var': n}, 'args': rest + [None, None, None]},
+                {'callee': {'var': n}, 'args': rest},
+                {'callee': {'var': n}, 'args': []},
+                {'callee': {'lib': 'arrayLength'}, 'args': [{'var': 1}]}])
+
+
+def fv_usable(spec):
+    """the reference speaks about every statement and nothing cyclic / large arises (systematic cases are filtered, not generated)"""
+    try:
+        return fv_sane(fv_replay(spec, spec['stmts']).env)
+    except Skip:
+        return False
+
+
+def norm_fns(x):
+    """function values are opaque: {'f': anything} -> {'f': '*'}"""
+    if isinstance(x, dict):
+        return {'f': '*'} if set(x) == {'f'} else {k: norm_fns(v) for k, v in x.items()}
+    if isinstance(x, list):
+        return [norm_fns(v) for v in x]
+    return x
+
+
+def fv_machine(ctx, specs):
+    """the FV histories as script text through the implementation and through the Lean jump machine over HostLib.hostLib"""
+    impl = fw.impl()
+    drv = fw.Driver('drv_hostlib')
+    reqs = []
+    outs = []
+    for spec in specs:
+        consts = {}
+        text = fv_script(spec, consts, False)
+        glob = fv_globals(spec, consts)
+        nvars = len(spec['env']) + len(spec['stmts'])
+        log = []
+        options = {'globals': glob, 'maxStatements': fv_budget(spec), 'logFn': log.append}
+        try:
+            model = impl['parser'].parse_script(text)
+            result = impl['runtime'].execute_script(model, options)
+            out = {'state': norm_fns(canon_state([glob.get(f'v{i}') for i in range(nvars)] + [result])), 'log': log,
+                   'count': options.get('statementCount')}
+        except Exception as exc:  # pylint: disable=broad-except
+            model, out = None, {'error': f'{type(exc).__name__}: {exc}'}
+        outs.append((text, out))
+        if model is None:
+            reqs.append({'op': 'none'})
+            continue
+        reqs.append({'op': 'exec', 'script': progen.canon_script(model),
+                     'pool': {'heap': spec['heap'], 'env': [[f'v{i}', p] for i, p in enumerate(spec['env'])] + [['kept', spec['env'][spec['kept']]]]},
+                     'globals': [[name, text_] for name, text_ in consts.items()],
+                     'observe': [f'v{i}' for i in range(nvars)], 'max': fv_budget(spec), 'fuel': 200000})
+    resps = []
+    for i in range(0, len(reqs), 400):
+        resps += drv.batch(reqs[i:i + 400])
+    ctx.driver.requests += drv.requests
+    for spec, (text, out), resp in zip(specs, outs, resps):
+        if 'state' in resp and 'error' not in resp:
+            mstate = resp['state']
+            model_out = {'state': norm_fns(canon_model(mstate['env'], mstate['heap'])), 'log': resp.get('log'), 'count': resp.get('count')}
+        else:
+            model_out = {k: v for k, v in resp.items() if k in ('error', 'bad', 'oof')} or {'bad': resp}
+        ctx.compare('function-values', {'fv': spec, 'script': text}, out, model_out)
+
+
+def fv_machine_expressible(spec):
+    """the machine's library has the match-function form of the two-argument arrayIndexOf only (HostLib.hostKeeps, HostImpl.lib);
+    everything else of an FV history (script functions with last-argument arrays, systemPartial, library functions as values) it can run"""
+    try:
+        return not fv_replay(spec, spec['stmts']).beyond_machine
+    except Skip:
+        return False
+
+
+def stream_function_values(ctx):
+    st = ctx.stream('function-values',
+                    'histories of 3..14 statements v = callee(args) on a pool of aliased containers and a global array `kept`: callee = a library '
+                    'function by name | a function bound with systemPartial (a library function with 1..n of a plausible call\'s arguments, a '
+                    f'recorder, a bound function again; called repeatedly with no / the remaining / wrong / surplus extra arguments, again after a failed call) | one of {len(RECORDERS)} '
+                    'script-defined RECORDERS (last-argument-array functions that push the array of arguments they got to `kept`, grow / '
+                    'overwrite / pop it, or return it); arguments include library functions, recorders and bound functions as the match '
+                    'function of arrayIndexOf / arrayLastIndexOf; a recorded array is fetched from `kept` and changed by a mutator. '
+                    'After every statement: complete state of all variables with aliasing == reference (direct call with bound + extra '
+                    'arguments; a fresh last-argument array per call; searches change nothing but what the call-back changes). '
+                    'Systematic part: every recorder x both searches x by name / bound once / bound twice; every match library function; every '
+                    'library function x every split into bound and extra arguments, 6 calls of the same bound function. '
+                    'Model: the same script through the Lean jump machine over HostLib.hostLib (script functions, systemPartial and the '
+                    'match-function form of arrayIndexOf(array, function) are HostImpl trees of that machine) - except histories with the match-function form of '
+                    'arrayLastIndexOf or of arrayIndexOf with a start index, which the machine\'s library does not have, or with stringLower / stringUpper of non-ASCII text: implementation-side oracle only there. '
+                    'non-trivial = a function value is called or passed at least twice')
+    rng = ctx.rng('function-values')
+    cases = [(kind, spec) for kind, spec in fv_systematic() if fv_usable(spec)]
+    cases += [('corpus', spec) for spec in load_corpus('stmts')]
+    cases += [('random', gen_fv_history(rng)) for _ in range(ctx.scale(700, 14000))]
+    expressible = []
+    for kind, spec in cases:
+        uses = 0
+        for s in spec['stmts']:
+            uses += ('var' in s['callee'] or 'rec' in s['callee']) + sum(1 for a in s['args'] if isinstance(a, dict) and ('lib' in a or 'rec' in a))
+        tags = [kind, f'len{min(len(spec["stmts"]) // 3 * 3, 12)}']
+        for s in spec['stmts']:
+            c = s['callee']
+            tags.append('call:partial' if 'var' in c else 'call:' + (c.get('rec') or ('systemPartial' if c.get('lib') == 'systemPartial' else 'library')))
+            tags += ['arg:' + (a.get('rec') or a.get('lib')) for a in s['args'] if isinstance(a, dict) and ('lib' in a or 'rec' in a)]
+        st.case({k: spec[k] for k in ('heap', 'env', 'kept', 'stmts')}, nontrivial=uses >= 2, tags=tags)
+        wit, script = fv_check(spec)
+        for oracle, k, want, got in wit:
+            ctx.witness(oracle, {'fv': spec, 'step': k, 'script': script}, want, got)
+        if fv_machine_expressible(spec):
+            expressible.append(spec)
+    fv_machine(ctx, expressible)
+
+
+# ---------------------------------------------------------------------------------------------------------------------
+# Text without a UTF-8 form (added after seeding round 6): a string is a sequence of code points and may hold a lone surrogate
+# (stringFromCharCode(55357), host-supplied data).  Lean's Char cannot (ASSUMPTIONS), so these two streams are
+# implementation-side only: the Python reference above (str is a code-point sequence, lone surrogates included) is the oracle.
+# ---------------------------------------------------------------------------------------------------------------------
+
+def stream_lib_surrogates(ctx):
+    st = ctx.stream('lib-surrogates',
+                    'histories as in the lib stream (<= 14 calls) whose strings, object keys and character codes (stringFromCharCode) are drawn '
+                    'from tables extended with lone surrogates (U+D83D, U+DE00, U+D800, U+DFFF, ...): every string function treats them as code '
+                    'points (length, slices, searches, split / replace / join, case mapping, keys), regexEscape escapes around them, urlEncode* '
+                    'returns null or text that percent-decodes to the argument; result, complete state, frame and freshness against the '
+                    'Python reference after every call.  Implementation-side oracle only: Lean strings cannot hold a lone surrogate; '
+                    'non-trivial = a surrogate occurs in the pool or in an argument')
+    rng = ctx.rng('lib-surrogates')
+    with surrogate_mode():
+        specs = [gen_history(rng, maxlen=14) for _ in range(ctx.scale(500, 10000))]
+    for spec in specs:
+        wit, _, info = check_history(spec)
+        text = json.dumps([spec['heap'], spec['env'], spec['calls']], ensure_ascii=True)
+        st.case({'heap': spec['heap'], 'env': spec['env'], 'calls': spec['calls']}, nontrivial='\\ud' in text or any(f'[{c}, 1]' in text for c in SURROGATE_CODES),
+                tags=[f'len{min(len(spec["calls"]) // 5 * 5, 30)}'] + ['fn:' + c['fn'] for c in spec['calls']] + ['failing-call'] * info['fails'])
+        for oracle, k, want, got in wit:
+            ctx.witness(oracle, {'spec': spec, 'step': k, 'script': info['script']}, want, got)
+
+
+TEXT_SCRIPT = 'e = regexEscape(s)\nu = urlEncode(s)\nc = urlEncodeComponent(s)'
+
+
+def text_run(s, codes=None):
+    """regexEscape / urlEncode / urlEncodeComponent of s through a script; codes: the script builds s itself with stringFromCharCode
+    -> ([e, u, c], s as the script saw it) | raises"""
+    impl = fw.impl()
+    if codes is None:
+        glob = {'s': s}
+        text = TEXT_SCRIPT
+    else:
+        glob = {}
+        text = f's = stringFromCharCode({", ".join(str(c) for c in codes)})\n' + TEXT_SCRIPT
+    impl['runtime'].execute_script(impl['parser'].parse_script(text), {'globals': glob, 'maxStatements': 100})
+    return [glob.get('e'), glob.get('u'), glob.get('c')], glob.get('s')
+
+
+def stream_text_surrogates(ctx):
+    st = ctx.stream('text-surrogates',
+                    'random strings of 1..10 code points over ASCII incl. every regex metacharacter, non-ASCII, non-BMP AND lone surrogates (at '
+                    'least one per string; high / low alone, in the wrong order, next to a valid pair), supplied by the host or built by the script '
+                    'with stringFromCharCode: re.fullmatch(regexEscape(s), t) <=> t == s for t = s and near misses; urlEncode / '
+                    'urlEncodeComponent return null (the text has no UTF-8 form) or text that percent-decodes to s - never a lossy '
+                    'encoding.  Implementation-side oracle only (Lean strings cannot hold a lone surrogate); non-trivial = all')
+    rng = ctx.rng('text-surrogates')
+    alphabet = WIDE + SURROGATES
+    fixed = ['\ud83d', '\ude00', 'a\ud83db', 'q=\ude00', '\ude00\ud83d', '😀/\ude00\ud83d', '\U0001f600\ud83d', '?\ud800?', '%\udfff', '\ud83d.']
+    strings = fixed + [None] * ctx.scale(600, 12000)
+    for s in strings:
+        if s is None:
+            chars = [rng.choice(alphabet) for _ in range(rng.randint(0, 9))]
+            chars.insert(rng.randint(0, len(chars)), rng.choice(SURROGATES))
+            s = ''.join(chars)
+        codes = [ord(ch) for ch in s] if rng.random() < 0.5 else None
+        inp = {'s': s} if codes is None else {'s': s, 'codes': codes}
+        st.case(inp, nontrivial=True, tags=[f'len{min(len(s), 10)}', 'script-built' if codes else 'host-supplied'])
+        try:
+            got, seen = text_run(s, codes)
+        except Exception as exc:  # pylint: disable=broad-except
+            ctx.witness('no-exception-escapes', inp, 'three values', f'{type(exc).__name__}: {exc}')
+            continue
+        if seen != s:
+            ctx.witness('stringFromCharCode-code-points', inp, scalar_proto(s), scalar_proto(seen))
+            continue
+        for oracle, want, actual in text_failures(s, got, rng):
+            ctx.witness(oracle, inp, want, actual)
+
+
 def streams(ctx):
     stream_args(ctx)
     stream_index(ctx)
     stream_callbacks(ctx)
     stream_sort(ctx)
+    stream_function_values(ctx)
+    stream_lib_surrogates(ctx)
+    stream_text_surrogates(ctx)
     text_oracles(ctx)
     answered = stream_lib(ctx)
     stream_lib_through_machine(ctx, answered)
@@ -1832,6 +2643,21 @@ def search(ctx):
             ctx.witness(oracle, {'sort': case}, want, got)
         if ctx.witnesses:
             return
+    # 4. calls through function values, recording call-backs; text with lone surrogates
+    for spec in [spec for _, spec in fv_systematic() if fv_usable(spec)] + [gen_fv_history(rng) for _ in range(ctx.scale(2000, 20000))]:
+        wit, script = fv_check(spec)
+        for oracle, k, want, got in wit:
+            ctx.witness(oracle, {'fv': spec, 'step': k, 'script': script}, want, got)
+        if ctx.witnesses:
+            return
+    with surrogate_mode():
+        specs = [gen_history(rng, maxlen=12, p_bad=0.2) for _ in range(ctx.scale(1000, 10000))]
+    for spec in specs:
+        wit, _, info = check_history(spec)
+        for oracle, k, want, got in wit:
+            ctx.witness(oracle, {'spec': spec, 'step': k, 'script': info['script']}, want, got)
+        if ctx.witnesses:
+            return
     impl = fw.impl()
     script = impl['parser'].parse_script('e = regexEscape(s)\nu = urlEncode(s)\nc = urlEncodeComponent(s)')
     for _ in range(5000):
@@ -1850,14 +2676,13 @@ def replay(witness):
     if 'spec' in inp:
         wit, _, _ = check_history(inp['spec'])
         return bool(wit)
-    impl = fw.impl()
-    script = impl['parser'].parse_script('e = regexEscape(s)\nu = urlEncode(s)\nc = urlEncodeComponent(s)')
-    glob = {'s': inp['s']}
+    if 'fv' in inp:
+        return bool(fv_check(inp['fv'])[0])
     try:
-        impl['runtime'].execute_script(script, {'globals': glob, 'maxStatements': 100})
+        got, seen = text_run(inp['s'], inp.get('codes'))
     except Exception:  # pylint: disable=broad-except
         return True
-    return bool(text_failures(inp['s'], [glob.get('e'), glob.get('u'), glob.get('c')], fw.rng_for(0, 'C15', 'replay')))
+    return seen != inp['s'] or bool(text_failures(inp['s'], got, fw.rng_for(0, 'C15', 'replay')))
 
 
 LEVEL_TEXT = ('Theorems over a heap model (arrays/objects as shared cells) for ALL heaps, argument lists and call histories: frame (only the '
@@ -1884,7 +2709,14 @@ LEVEL_NOTE = ('Trusted: Lean kernel; extract.py; the correspondence harness and 
               'non-ASCII, surrogate code points, cyclic containers (F18), stringNew. arraySort is outside the Lean model too (its order is the subject '
               'of C11); the sort stream checks it on the implementation only: the passed array is returned, permuted in place, adjacent '
               'elements in order by the compare call-back (script-defined / host, fractional results) or the reference comparison, '
-              'failure = null and nothing moves; stability is not demanded. For string functions whose body already is '
+              'failure = null and nothing moves; stability is not demanded; recording last-argument-array compare functions get one fresh '
+              'array [x, y] per call. Calls through function values (systemPartial-bound library functions / recorders, library functions and '
+              'bound functions as match functions, last-argument-array script functions that keep or change their argument array) are '
+              'correspondence-strength too: stream function-values against the Python reference (RefFn / FvWorld) and, for histories within the '
+              'machine\'s library (no match-function form of arrayLastIndexOf / of arrayIndexOf with a start index, no non-ASCII case mapping), '
+              'against the Lean jump machine over hostLib; a library call that FAILS while being run as a call-back by another library '
+              'function is left out (the property does not say whose failure value the outer call has). Text with lone surrogates: '
+              'implementation-only streams lib-surrogates / text-surrogates (urlEncode*: null or a reversible encoding). For string functions whose body already is '
               'a plain code-point operation (startsWith, endsWith, split, replace, trim, lower/upper) the reference IS the modelled '
               'primitive: their contract is correspondence-strength (lib stream + Python reference), not a theorem. Machine level: the '
               'bridge theorems assume the call is one Lib models (decidable predicate Modelled / AllModelled); an unmodelled call falls back to '
